@@ -289,7 +289,11 @@ func init() {
 		return nil
 	}
 	verifIntrinsics["verifSetGhost"] = func(fr *frame, args []value) value {
-		fr.i.ghost[args[0].(string)] = args[1]
+		v := args[1]
+		if i, ok := v.(iface); ok {
+			v = i.v
+		}
+		fr.i.ghost[args[0].(string)] = v
 		return nil
 	}
 
